@@ -488,6 +488,21 @@ class WorldG8 : public World
                 ld k_per_b = q_native / p_native;
                 Helix hx = make_helix(pos0, dir0, bnat, k_per_b);
                 ld radius = 1 / std::fabs(hx.k);
+                // ZHelixStepper's exact regime, decided per call from the state:
+                // positive helicity (q Bz < 0) and gyration centre on the z axis.
+                // Boundary hits displace the point by up to delta_intersection, so
+                // the centre drifts; a centre offset c costs at most 2c of position.
+                ld zhelix_centre_offset = 0;
+                if (stepper == "zhelix")
+                {
+                    ld cx = hx.x0[0] + hx.cross[0] / hx.k, cy = hx.x0[1] + hx.cross[1] / hx.k;
+                    zhelix_centre_offset = std::sqrt(cx * cx + cy * cy);
+                    ld rp = radius
+                            * std::sqrt((ld)(hx.perp[0] * hx.perp[0] + hx.perp[1] * hx.perp[1]
+                                             + hx.perp[2] * hx.perp[2]));
+                    bool helicity_ok = q_native * bnat[2] < 0;
+                    cl[s].general_zhelix = !helicity_ok || zhelix_centre_offset > 1e-3L * rp;
+                }
                 if (rzmap)
                 {
                     // local gyroradius at the start point decides the step scale
@@ -761,7 +776,7 @@ class WorldG8 : public World
                     // unchanged tree outside the recorded regimes, over 3e5 plans,
                     // is 0.31 of it)
                     ld tolp = 3 * eps_rel * (ld)res.distance * (2 + nest) + 3 * (di + ms) + 8 * tol
-                              + 1e-9L * scale + window / 8;
+                              + 1e-9L * scale + window / 8 + 2.5L * zhelix_centre_offset;
                     ld sinth = std::sqrt((ld)(hx.perp[0] * hx.perp[0] + hx.perp[1] * hx.perp[1]
                                               + hx.perp[2] * hx.perp[2]));
                     // regimes recorded as known findings, each under its own
